@@ -1,9 +1,13 @@
 #!/bin/sh
-# Offline setup: build the Lean project (models, proofs, driver) and the cached sanitizer build of
-# /repo's working tree.  Everything is rebuilt on demand by the checks anyway; this only warms caches.
+# Offline setup: build the Lean project (models, all property modules, driver) and the cached sanitizer
+# build of /repo's working tree.  Everything is rebuilt on demand by the checks anyway; this warms caches.
 set -e
 cd "$(dirname "$0")"
 python3 vlib/extract.py
-(cd lean && lake build)
+python3 -c "import sys; sys.path.insert(0,'.'); from vlib import lean; lean.gen_main()"
+MODS=$(cd lean/NngModel/Props && ls *.lean | sed 's/\.lean$//; s/^/NngModel.Props./')
+(cd lean && lake build driver)
+# property modules: a module that does not build is reported by its own check, not by setup
+(cd lean && lake build $MODS) || echo "setup: some property modules did not build (their checks will report it)"
 python3 vlib/build.py asan >/dev/null
 echo setup-ok
